@@ -103,6 +103,9 @@ func (mt *multiSwarm) Tell(ctx context.Context, dst Addr, data p2p.IOVec) error 
 	if !ok {
 		return ErrTransportNotExist
 	}
+	if p2p.VecSize(data) > mt.MTU() {
+		return p2p.ErrMTUExceeded
+	}
 	return t.Tell(ctx, dst.Addr, data)
 }
 
@@ -189,7 +192,21 @@ func (ma *multiAsker) Ask(ctx context.Context, resp []byte, dst Addr, data p2p.I
 	if !ok {
 		return 0, ErrTransportNotExist
 	}
+	if mtu := ma.mtu(); p2p.VecSize(data) > mtu {
+		return 0, p2p.ErrMTUExceeded
+	}
 	return t.Ask(ctx, resp, dst.Addr, data)
+}
+
+// mtu is the smallest MTU among the transports, like multiSwarm.MTU
+func (ma *multiAsker) mtu() int {
+	ret := math.MaxInt
+	for _, s := range ma.swarms {
+		if m := s.MTU(); m < ret {
+			ret = m
+		}
+	}
+	return ret
 }
 
 func (ma *multiAsker) ServeAsk(ctx context.Context, fn func(context.Context, []byte, p2p.Message[Addr]) int) error {
